@@ -134,4 +134,29 @@ def stepTFixed (s : TSt) : Step → TSt × Res
     | none => ({ s with snaps := [⟨1, 2, norm m⟩] }, .fresh)
   | st => stepT s st
 
+/- Round 8 final: the relation under which the term-aware folder refines the intended one (`Props/C01`:
+   `term_model_refines_intended`). -/
+/-- how many imports of the history took over the metadata (term, index) of an existing snapshot (`SnapshotSave`, `meta != nil`) -/
+def keptImports : TSt → List Step → Nat
+  | _, [] => 0
+  | s, st :: rest => (if (stepT s st).2 == .kept then 1 else 0) + keptImports (stepT s st).1 rest
+
+/-- (term, index) of `b` is at or below (`t`, `i`) in the order of `FileSnapshotStore.List` -/
+def leTI (b : Snap) (t i : Nat) : Prop := b.term < t ∨ (t = b.term ∧ b.idx ≤ i)
+
+/-- a running node: the FSM's (lastTerm, lastIndex) is at or above every snapshot and every log entry of the folder -/
+def UpInv (t : TSt) : Prop :=
+  t.lterm ≤ t.cur ∧ t.lidx ≤ t.idx ∧ (∀ e ∈ t.log, e.1 ≤ t.lidx) ∧
+  (t.init = false → t.snaps = [] ∧ t.log = []) ∧ (∀ b ∈ t.snaps, leTI b t.lterm t.lidx)
+
+/-- a stopped node: no log entry behind the newest snapshot, no log without a snapshot -/
+def DownInv (t : TSt) : Prop :=
+  (∀ b ∈ t.snaps, b.term ≤ t.cur + 1) ∧ (t.snaps = [] → t.log = []) ∧
+  (∀ b, newest t.snaps = some b → ∀ e ∈ t.log, e.1 ≤ b.idx)
+
+/-- the simulation relation between the term-aware folder and the intended one -/
+def Sim (t : TSt) (s : St) : Prop :=
+  t.up = s.up ∧ t.init = s.init ∧ t.live = s.live ∧ (newest t.snaps).map (·.st) = s.snap ∧
+  (t.up = true → UpInv t) ∧ (t.up = false → DownInv t)
+
 end CV.C01.Folder
